@@ -338,7 +338,7 @@ class Run(object):
         except Exception:
             pass
         self.cov["distinct_nontrivial"] = len(self._distinct)
-        rdir = os.path.join(VERIF, "replays", self.pid)
+        rdir = os.path.join(VERIF, "replays", self.pid + ("_dev" if os.environ.get("VERIF_DEVRUN") else ""))
         if os.path.isdir(rdir):
             for old in os.listdir(rdir):          # replay files of earlier runs do not describe this run
                 if old.startswith("violation_") and old.endswith(".json"):
@@ -370,9 +370,10 @@ class Run(object):
         if self._sigcount:
             ev["coverage"]["violation_signatures"] = dict(sorted(self._sigcount.items()))
         ev["coverage"].update(self.notes)
-        os.makedirs(os.path.join(VERIF, "evidence"), exist_ok=True)
-        with open(os.path.join(VERIF, "evidence", self.pid + ".json"), "w") as fh:
-            json.dump(ev, fh, indent=1, default=repr)
+        if not os.environ.get("VERIF_DEVRUN"):        # development runs (tools/anchor_coverage.py) leave the evidence alone
+            os.makedirs(os.path.join(VERIF, "evidence"), exist_ok=True)
+            with open(os.path.join(VERIF, "evidence", self.pid + ".json"), "w") as fh:
+                json.dump(ev, fh, indent=1, default=repr)
         self.scratch.cleanup()
         print("%s tier=%s seed=%d evaluations=%d distinct=%d states=%d traces=%d violations=%d known=%d wall=%.1fs" % (
             self.pid, self.tier, seed(), self.cov["evaluations"], self.cov["distinct_nontrivial"], self.cov["states"],
